@@ -828,10 +828,14 @@ class Flow(object):
         return self._composite(name, others, (which, others))
 
     # -- facts ---------------------------------------------------------------------
-    def fact_valid(self, a, node):
+    def fact_valid(self, a, node, origin=None):
         """Is what the assume node ``a`` established still true on entry to
         ``node`` (nothing its condition mentions is re-defined on a path
-        from ``a`` to ``node``)?"""
+        from ``a`` to ``node``)?  ``origin``: the node the fact is known at
+        when that is not ``a`` itself (the join behind a test with several
+        operands)."""
+        if origin is not None:
+            return self._fact_valid_from(a, node, origin)
         atoms = set()
         for p in self._cond_polys(a.ast, a, 0):
             atoms |= p.atoms()
@@ -861,6 +865,33 @@ class Flow(object):
             if d.node.id in after_a and (
                     d.node is not node and node.id in self.cfg.reachable_from(
                         d.node, avoid=[a])):
+                return False
+        return True
+
+    def _fact_valid_from(self, a, node, origin):
+        atoms = set()
+        for p in self._cond_polys(a.ast, a, 0):
+            atoms |= p.atoms()
+        for sub in ast.walk(a.ast):
+            if isinstance(sub, (ast.Call, ast.Subscript)):
+                try:
+                    atoms |= self.sym(sub, a).atoms()
+                except AnalysisError:
+                    pass
+        if not self._available(atoms, origin, node):
+            return False
+        names = set(chain(x) for x in ast.walk(a.ast)
+                    if isinstance(x, (ast.Name, ast.Attribute)) and
+                    isinstance(getattr(x, "ctx", None), ast.Load))
+        names.discard(None)
+        after = self.cfg.reachable_from(origin, avoid=[origin])
+        for d in self.defs:
+            if d.mode != "mut" or not any(
+                    d.var == v or v.startswith(d.var + ".") for v in names):
+                continue
+            if d.node.id in after and d.node is not node and \
+                    node.id in self.cfg.reachable_from(d.node,
+                                                       avoid=[origin]):
                 return False
         return True
 
